@@ -435,12 +435,25 @@ pub fn generate(seed: u64) -> LspCase {
     let mut on_disk: BTreeMap<usize, usize> = initial.iter().cloned().collect();
     // a buffer is often what is on disk with lines inserted on top (positions shift), or some
     // other snippet, sometimes shifted as well
-    let buffer_snippet = |rng: &mut Rng, on_disk: &BTreeMap<usize, usize>, p: usize| -> usize {
-        match (on_disk.get(&p), rng.below(4)) {
-            (Some(s), 0) => 100 + *s,
-            (_, 1) => 100 + session::gen_snippet(rng),
+    // what each buffer currently holds (base snippet), so that a change can be the same text
+    // reflowed: same diagnostics, same byte offsets, other line numbers
+    let mut in_buffer: BTreeMap<usize, usize> = BTreeMap::new();
+    let mut buffer_snippet = |rng: &mut Rng, on_disk: &BTreeMap<usize, usize>, p: usize| -> usize {
+        let s = match (on_disk.get(&p), in_buffer.get(&p).copied(), rng.below(6)) {
+            (Some(s), _, 0) => 100 + *s,
+            (_, _, 1) => 100 + session::gen_snippet(rng),
+            (_, Some(b), 2) | (_, Some(b), 3) => {
+                if b >= 200 {
+                    b % 100
+                } else {
+                    200 + b % 100
+                }
+            }
+            (Some(s), None, 2) => 200 + *s,
             _ => session::gen_snippet(rng),
-        }
+        };
+        in_buffer.insert(p, s);
+        s
     };
     // half of the runs let diagnostics be computed before anything is opened
     if rng.chance(1, 2) {
